@@ -283,7 +283,9 @@ theorem c03_vd_corr (names : List String) (hnd : names.Nodup) (elems : List Elem
     (hlen : elems.length = names.length) (hc : isCorrespondence names elems = true) :
     parse (some names) (.list elems) = .ok ((names.zip elems).map fun p => (p.1, dimsOfElem p.2)) := by
   cases elems with
-  | nil => simp [isCorrespondence] at hc
+  | nil =>
+    have hn : names = [] := List.length_eq_zero_iff.mp (by simpa using hlen.symm)
+    subst hn; rfl
   | cons e es =>
     simp only [parse, List.isEmpty_cons, Bool.false_eq_true, if_false, hc, if_true, hlen, bne_self_eq_false]
     obtain ⟨l, hl⟩ : ∃ l : List (String × List Atom), l = (names.zip (e :: es)).map fun p => (p.1, dimsOfElem p.2) :=
@@ -330,7 +332,7 @@ theorem c03_vd_bare_string (d : String) : dimsOfAtom (.s d) = dimsOfAtom (.t [d]
 theorem c03_vd_str (k d : String) (hd : d.isEmpty = false) :
     parse (some [k]) (.str d) = .ok [(k, [.s d])] ∧ parse (some [k]) (.str d) = parse (some [k]) (.dict [(.s k, .t [d])]) := by
   have h1 : parse (some [k]) (.str d) = .ok [(k, [.s d])] := by
-    simp [parse, hd, dedup, applyItems, applyKey, assign]
+    simp [parse, hd, dedup, applyItems, applyKey, assign, Gen.varDimsStrRefused]
   refine ⟨h1, ?_⟩
   rw [h1]
   simp [parse, dedup, applyItems, applyKey, assign, dimsOfAtom]
@@ -338,7 +340,8 @@ theorem c03_vd_str (k d : String) (hd : d.isEmpty = false) :
 /-- the string spelling is refused for several outputs -/
 theorem c03_vd_str_needs_single (names : List String) (d : String) (hd : d.isEmpty = false) (h : names.length ≠ 1) :
     parse (some names) (.str d) = .error .value := by
-  simp [parse, hd, h]
+  have : ((names.length : Int) ≠ 1) := by omega
+  simp [parse, hd, Gen.varDimsStrRefused, this]
 
 /-- "no dimensions": `None`, `{}`, `()` / `[]` and `''` all give every output the empty tuple -/
 theorem c03_vd_empty (names : List String) :
